@@ -514,7 +514,14 @@ class Type4ATag(Type4Tag):
         rats_res = self.clf.exchange(rats_cmd, timeout=0.03)
         log.debug("rcvd RATS response: {0}".format(hexlify(rats_res).decode()))
 
-        fsci, fwti = rats_res[1] & 0x0F, rats_res[3] >> 4
+        # The format byte T0 tells which interface bytes are present,
+        # the default values are FSCI 2 and FWI 4.
+        fsci, fwti = 2, 4
+        if len(rats_res) > 1:
+            fsci = rats_res[1] & 0x0F
+            tb1_index = 2 + (rats_res[1] >> 4 & 1)
+            if rats_res[1] & 0x20 and len(rats_res) > tb1_index:
+                fwti = rats_res[tb1_index] >> 4
         if fsci > 8:
             log.warning("FSCI with RFU value in RATS_RES")
             fsci = 8
